@@ -461,6 +461,21 @@ class C03(PropertyCheck):
         "QipVerif.C03.resolve_den_partial",
         "QipVerif.C03.resolve_den_unrestricted_counterexample",
         "QipVerif.C03.phasegate_odd_counterexample",
+        "QipVerif.C03.resolve_den",
+        "QipVerif.C03.resolve_refuses_iff",
+        "QipVerif.C03.expressible_library",
+        "QipVerif.C03.expressible_sqrt",
+        "QipVerif.C03.expressible_norule",
+        "QipVerif.C03.substring_passthrough_counterexample",
+        "QipVerif.C03.string_basis_refuses_norule",
+        "QipVerif.C03.resolveF_refines",
+        "QipVerif.C03.resolve_keeps_condition",
+        "QipVerif.C03.resolve_den_cond",
+        "QipVerif.C03.condition_dropped_counterexample",
+        "QipVerif.C03.resolve_refuses_measurement",
+        "QipVerif.C03.basis_string_is_list",
+        "QipVerif.C03.resolve_basis_perm",
+        "QipVerif.C03.resolve_labels_true",
     ]
     technique = ("Lean 4: rule tables regenerated from the source, each rule's exact unitary identity decided by the kernel "
                  "in Z[zeta16][1/2] (decide +kernel); parametric rules proved over C for all angles; list-level theorems on "
@@ -613,6 +628,30 @@ class C03(PropertyCheck):
                     cases.append((2, [G("SNOT", [1 - q], []), G(un, [q], [], lab=("u", 1), cond=([0], 1)),
                                       G("CNOT", [q], [1 - q])], ub))
         self._run_cases(ctx, res, cases, "user-gates")
+        # the constructors: the side condition `buildable` of resolve_den (RX RY RZ X Y Z have no controls) is what
+        # the gate classes accept
+        from qutip_qip.circuit import QubitCircuit
+        probes = []
+        for name in RESOLVABLE + OTHERS:
+            nc, nt = decomp.SHAPE[name]
+            if nt != 1 or name == "GLOBALPHASE":
+                continue
+            for c in ([], [1], [1, 2]):
+                probes.append(G(name, [0], c, p8=4))
+        outs = ctx.driver("drv_decomp").run(["buildable gates=" + ";".join(g.enc() for g in probes)])[0].split(",")
+        for g, m in zip(probes, outs):
+            try:
+                QubitCircuit(3).add_gate(g.name, targets=g.t, controls=(g.c or None), arg_value=g.value())
+                impl = "1"
+            except ValueError:
+                impl = "0"
+            except Exception as e:
+                impl = "exc:" + type(e).__name__
+            one_qubit_class = g.name in ("RX", "RY", "RZ", "X", "Y", "Z")
+            res.case({"ctor": g.js()}, nontrivial=bool(g.c), tags=["stream=ctor"])
+            # the model's predicate speaks about the six classes resolve_gates rebuilds from `targets` alone
+            if one_qubit_class and m != impl:
+                res.disagree({"ctor": g.js()}, m, impl, "constructor accepts controls on a one-qubit rotation / Pauli", None)
 
     # ---------------------------------------------------------------------------------
     def oracle_replay(self, ctx, w):
